@@ -124,13 +124,13 @@ def flattenList (taken : List (List Char)) : List Fn → List Fn
   | f :: fs => flatten taken f :: flattenList taken fs
 end
 
-/-- `flatten_update_function` for one variable: explicit function, or implicit function of its regulators;
-variables without regulators are skipped -/
+/-- `flatten_update_function` for one variable: an explicit function is flattened (also when the variable has no
+regulator — repair D16: `$a: k`, `$a: f(true)`); without a function, the implicit function of the regulators is
+exploded, and a variable with neither is skipped (it stays a free input) -/
 def flattenVar (taken : List (List Char)) (varName : List Char) (regulators : List Nat) (update : Option Fn) : Option Fn :=
-  if regulators.isEmpty then update  -- skipped: stays as it is (a free input when it has no function)
-  else match update with
-    | some f => some (flatten taken f)
-    | none => some (explode taken (regulators.map Fn.var) (varName ++ ['_']))
+  match update with
+  | some f => some (flatten taken f)
+  | none => if regulators.isEmpty then none else some (explode taken (regulators.map Fn.var) (varName ++ ['_']))
 
 def bitsOf (bs : List Bool) : List Char := bs.map (fun b => if b then '1' else '0')
 
